@@ -251,4 +251,121 @@ theorem quickImages_sound (s : Dir) (hc : Cover s) (ni : NamedImage) (h : ni ∈
     · obtain ⟨_, rfl⟩ := mem_ite_singleton _ _ _ h7
       exact crashImage_of_tab s hc _ _ hL (upd_allowed_atom s _ aL p o ho)
 
+/-! ### the full enumerator -/
+
+theorem outcomes_allowed (st : FileSt) (o : Option (Nat × Bool)) (h : o ∈ st.outcomes) : st.outcome o = true := by
+  unfold FileSt.outcomes at h
+  rcases List.mem_append.mp h with h | h
+  · by_cases hc : (st.dur && st.vis && !st.churn) = true
+    · simp [hc] at h
+    · simp only [hc, Bool.false_eq_true, if_false, List.mem_singleton] at h
+      subst h
+      have hc' : (st.dur && st.vis && !st.churn) = false := by simpa using hc
+      simp [FileSt.outcome, hc']
+  · by_cases hp : (st.dur || st.vis || st.churn) = true
+    · simp only [hp, if_true] at h
+      by_cases ht : st.term = true
+      · simp only [ht, if_true, List.mem_singleton] at h
+        subst h
+        simp [FileSt.outcome, hp, ht]
+      · have ht' : st.term = false := by simpa using ht
+        simp only [ht', Bool.false_eq_true, if_false, List.mem_append, List.mem_map, List.mem_range,
+          List.mem_singleton] at h
+        rcases h with ⟨n, hn, rfl⟩ | rfl
+        · simp [FileSt.outcome, hp, ht']; omega
+        · simp [FileSt.outcome, hp, ht']
+    · simp [hp] at h
+
+theorem prodOutcomes_entries {α : Type} (tbl : List (Path × List α)) (l : List (Path × α))
+    (h : l ∈ prodOutcomes tbl) : ∀ e ∈ l, ∃ os, (e.1, os) ∈ tbl ∧ e.2 ∈ os := by
+  induction tbl generalizing l with
+  | nil =>
+    simp only [prodOutcomes, List.mem_singleton] at h
+    subst h
+    intro e he; cases he
+  | cons t rest ih =>
+    obtain ⟨p, os⟩ := t
+    simp only [prodOutcomes, List.mem_flatMap, List.mem_map] at h
+    obtain ⟨o, ho, r, hr, rfl⟩ := h
+    intro e he
+    rcases List.mem_cons.mp he with rfl | he
+    · exact ⟨os, by simp, ho⟩
+    · obtain ⟨os', h1, h2⟩ := ih r hr e he
+      exact ⟨os', List.mem_cons_of_mem _ h1, h2⟩
+
+theorem prodOutcomes_keys {α : Type} (tbl : List (Path × List α)) (l : List (Path × α))
+    (h : l ∈ prodOutcomes tbl) : l.map Prod.fst = tbl.map Prod.fst := by
+  induction tbl generalizing l with
+  | nil =>
+    simp only [prodOutcomes, List.mem_singleton] at h
+    subst h; rfl
+  | cons t rest ih =>
+    obtain ⟨p, os⟩ := t
+    simp only [prodOutcomes, List.mem_flatMap, List.mem_map] at h
+    obtain ⟨o, _, r, hr, rfl⟩ := h
+    simp [ih r hr]
+
+theorem lookupD_mem {α : Type} (l : List (Path × Option α)) (p : Path) :
+    (∃ v, (p, v) ∈ l ∧ lookupD l p = v) ∨ (p ∉ l.map Prod.fst ∧ lookupD l p = none) := by
+  induction l with
+  | nil => right; simp [lookupD]
+  | cons e t ih =>
+    obtain ⟨q, w⟩ := e
+    by_cases hq : p = q
+    · subst hq
+      left
+      exact ⟨w, by simp, by simp [lookupD]⟩
+    · have hb : (p == q) = false := by simpa using hq
+      rcases ih with ⟨v, hv, hl⟩ | ⟨hn, hl⟩
+      · left
+        refine ⟨v, List.mem_cons_of_mem _ hv, ?_⟩
+        unfold lookupD at hl ⊢
+        simpa [List.lookup_cons, hb] using hl
+      · right
+        refine ⟨by simpa [hq] using hn, ?_⟩
+        unfold lookupD at hl ⊢
+        simpa [List.lookup_cons, hb] using hl
+
+/-- **soundness of the full enumerator**: every element of `crashImages s` is a crash image -/
+theorem crashImages_sound (s : Dir) (hc : Cover s) (img : LImage) (h : img ∈ crashImages s) :
+    CrashImage s img.toImage := by
+  unfold crashImages at h
+  simp only [List.mem_flatMap, List.mem_map] at h
+  obtain ⟨fs, hfs, as, has, rfl⟩ := h
+  constructor
+  · intro p
+    simp only [LImage.toImage]
+    rcases lookupD_mem fs p with ⟨v, hv, hl⟩ | ⟨hn, hl⟩
+    · rw [hl]
+      obtain ⟨os, h1, h2⟩ := prodOutcomes_entries _ fs hfs (p, v) hv
+      simp only [List.mem_map, Prod.mk.injEq] at h1
+      obtain ⟨q, _, rfl, rfl⟩ := h1
+      exact outcomes_allowed _ _ h2
+    · rw [hl]
+      rw [prodOutcomes_keys _ fs hfs] at hn
+      have hp : p ∉ s.paths := by
+        intro hp
+        apply hn
+        simp only [List.map_map, List.mem_map, Function.comp]
+        exact ⟨p, hp, rfl⟩
+      have := hc.files p hp
+      simp [FileSt.outcome, this.1]
+  · intro p
+    simp only [LImage.toImage]
+    rcases lookupD_mem as p with ⟨v, hv, hl⟩ | ⟨hn, hl⟩
+    · rw [hl]
+      obtain ⟨os, h1, h2⟩ := prodOutcomes_entries _ as has (p, v) hv
+      simp only [List.mem_map, Prod.mk.injEq] at h1
+      obtain ⟨q, _, rfl, rfl⟩ := h1
+      exact h2
+    · rw [hl]
+      rw [prodOutcomes_keys _ as has] at hn
+      have hp : p ∉ s.apaths := by
+        intro hp
+        apply hn
+        simp only [List.map_map, List.mem_map, Function.comp]
+        exact ⟨p, hp, rfl⟩
+      have := hc.atoms p hp
+      simp [AtomSt.options, this.1]
+
 end TantivyModel.Storage
